@@ -504,7 +504,18 @@ mod exec {
                     }
                 }
             }
-            out.push_str(&Exec::display_escape(&self.command.to_string_lossy()));
+            let command = self.command.to_string_lossy();
+            // A program named like a reserved word of the shell is a
+            // command only when quoted; bare, the shell reads a keyword.
+            const RESERVED: [&str; 13] = [
+                "if", "then", "else", "elif", "fi", "do", "done", "case", "esac", "while", "until",
+                "for", "in",
+            ];
+            if RESERVED.contains(&command.as_ref()) {
+                out.push_str(&format!("'{}'", command));
+            } else {
+                out.push_str(&Exec::display_escape(&command));
+            }
             for arg in &self.args {
                 out.push(' ');
                 out.push_str(&Exec::display_escape(&arg.to_string_lossy()));
